@@ -55,6 +55,10 @@ class _Descr:
 
     def __init__(self, f):
         self.f = f
+        self.owner = None
+
+    def __set_name__(self, owner, name):
+        self.owner = owner       # CPython calls this again for the replacement class
 
     def __get__(self, inst, owner):
         if inst is None:
@@ -69,7 +73,12 @@ def _wrap(f):
     return wrapper
 
 
+HOOK_LOG: list = []      # names for which an on_setattr hook of the synthetic classes ran
+HOOK_PROBE = [None]      # while the class under test is being decorated: callable(cls) run by inherited hooks
+
+
 def _hook(inst, a, v):
+    HOOK_LOG.append(a.name)
     return v
 
 
@@ -171,6 +180,8 @@ def _base_cprop(name):
 def _isub_hook():
     def __attrs_init_subclass__(cls):
         ISUB.append(cls)
+        if HOOK_PROBE[0] is not None:
+            HOOK_PROBE[0](cls)       # look at the class NOW, not after the decorator returned
     return classmethod(__attrs_init_subclass__)
 
 
@@ -238,8 +249,8 @@ def _meta(hs):
     return {"type": type, "custom": Meta, "abc": abc.ABCMeta}[hs.get("meta", "type")]
 
 
-def _decorate(hs, cls):
-    kw = {"slots": True, "weakref_slot": bool(hs.get("weakref_slot", True))}
+def _decorate(hs, cls, slots=True):
+    kw = {"slots": slots, "weakref_slot": bool(hs.get("weakref_slot", True))}
     if hs.get("cache_hash"):
         kw["cache_hash"] = True
         kw["unsafe_hash"] = True
@@ -293,9 +304,15 @@ def build(hs, decorate=True):
     b.hs = hs
     chain, specs, mixin = build_bases(hs)
     b.chain, b.specs, b.mixin = chain, specs, mixin
-    bases = ((chain[-1] if chain else object),) + ((mixin,) if mixin is not None else ())
-    if bases == (object, mixin):
+    last = chain[-1] if chain else object
+    if mixin is None:
+        bases = (last,)
+    elif last is object:
         bases = (mixin,)
+    elif (hs.get("mixin") or {}).get("first"):
+        bases = (mixin, last)        # the attrs base is a direct base but not `__base__`
+    else:
+        bases = (last, mixin)
     name = hs.get("name", "C")
     cells = {cid: types.CellType() for cid, _ in hs["cells"]}
     b.cells = cells
@@ -404,13 +421,129 @@ def build(hs, decorate=True):
     del ISUB[:]
     b.new = None
     b.isub = []
+    b.hook_raw, b.hook_snap = [], []
     if decorate:
+        def at_hook_time(cls):
+            b.hook_raw.append(_raw_calls(cls, b))
+            snap = {"slots": cls.__dict__.get("__slots__", MISSING), "keys": set(cls.__dict__), "cls": cls}
+            try:
+                snap["fields"] = [a.name for a in attr.fields(cls)]
+            except BaseException:  # noqa: BLE001
+                snap["fields"] = None
+            b.hook_snap.append(snap)
+        HOOK_PROBE[0] = at_hook_time
         try:
             b.new = _decorate(hs, old)
             b.isub = list(ISUB)
         finally:
+            HOOK_PROBE[0] = None
             del ISUB[:]
     return b
+
+
+def _attr_names(hs):
+    return set(hs["fields"]) | set(inherited_names(hs))
+
+
+def _raw_calls(cls, b):
+    """invoke every reachable function part of the body that uses the class, on `cls` as it is right now;
+    returns [[key, part], raw evidence] (the class object seen, True/False for super(), MISSING if it did not run)"""
+    hs = b.hs
+    items = dict((k, s) for k, s in hs["items"])
+    attr_names = _attr_names(hs)
+    has_cp = any(s["k"] == "cprop" and k not in attr_names for k, s in hs["items"])
+    out = []
+    for k in b.old_dict:
+        spec = items.get(k)
+        if spec is None or spec["k"] == "plain":
+            continue
+        kept = cls.__dict__.get(k, MISSING) is b.old_dict[k]
+        reachable = kept or (k not in attr_names and spec["k"] == "cprop") or \
+            (k not in attr_names and k == "__getattr__" and has_cp)
+        if not reachable:
+            continue
+        for role, suffix, fs in _parts(spec):
+            if not fs["uses"]:
+                continue
+            tag = k + suffix
+            del LOG[:]
+            obj = b.old_dict[k]
+            n_isub = len(ISUB)
+            try:
+                target = cls()
+                if k == "__getattr__":
+                    try:
+                        getattr(target, "zz_call_probe")
+                    except AttributeError:
+                        pass
+                elif k == "__attrs_init_subclass__":
+                    obj.__func__(cls)
+                elif role == "fn":
+                    obj(target)
+                elif role in ("cm",):
+                    obj.__func__(cls)
+                elif role == "sm":
+                    obj.__func__()
+                elif role == "fget":
+                    obj.fget(target)
+                elif role == "fset":
+                    obj.fset(target, 1)
+                elif role == "fdel":
+                    obj.fdel(target)
+                elif role == "cprop":
+                    getattr(target, k)
+                elif role == "opaque":
+                    r = getattr(target, k)
+                    if callable(r):
+                        r()
+            except BaseException:  # noqa: BLE001
+                pass
+            del ISUB[n_isub:]
+            ev = MISSING
+            for t, e in reversed(LOG):
+                if t == tag:
+                    ev = e
+                    break
+            out.append([[k, suffix[1:] or "whole"], ev])
+    del LOG[:]
+    del CP_LOG[:]
+    return out
+
+
+def _classify(ev, new, old):
+    if ev is MISSING:
+        return "empty"      # the function did not run
+    if ev is True:
+        return "new"
+    if ev is False:
+        return "old"
+    if ev is new:
+        return "new"
+    if ev is old:
+        return "old"
+    return "other"
+
+
+def assign_probe(C, names):
+    """assign every field on a fresh instance: outcome, hooks that ran, value read back"""
+    out = []
+    for f in names:
+        try:
+            inst = C()
+        except BaseException as e:  # noqa: BLE001
+            out.append([f, "ctor:" + common.exc_kind(e)])
+            continue
+        del HOOK_LOG[:]
+        r = _probe(lambda: setattr(inst, f, "pv"))
+        log = list(HOOK_LOG)
+        del HOOK_LOG[:]
+        try:
+            v = getattr(inst, f)
+            v = v if isinstance(v, str) else type(v).__name__
+        except BaseException as e:  # noqa: BLE001
+            v = "exc:" + common.exc_kind(e)
+        out.append([f, r, log, v])
+    return out
 
 
 def _functions_of(v):
@@ -544,7 +677,7 @@ def failed_obs(hs, what):
     return {"keys": [], "slots": [], "reused": [], "slotCount": [], "hasDict": False, "weakrefable": False,
             "setUnknown": "other", "getUnknown": "other", "cells": [], "calls": [], "cachedReturns": [],
             "cachedComputes": [], "initSubclass": [], "ownSetattrFlag": None, "setattrReset": False,
-            "runtimeDiff": [what]}
+            "hookCalls": [], "hookView": [], "assignAgree": False, "runtimeDiff": [what]}
 
 
 def attrs_caused(e):
@@ -621,57 +754,25 @@ def observe(hs):
             pass
     obs["getUnknown"] = _probe(lambda: getattr(inst, "zz_unknown_get"))
     obs["cells"] = [[cid, _cellval(b.cells[cid], b)] for cid, _ in hs["cells"]]
-    # calls
-    has_cp = bool(cp_names)
-    calls = []
-    for k in b.old_dict:
-        spec = items.get(k)
-        if spec is None or spec["k"] == "plain":
-            continue
-        kept = new.__dict__.get(k, MISSING) is b.old_dict[k]
-        reachable = kept or (k not in attr_names and spec["k"] == "cprop") or \
-            (k not in attr_names and k == "__getattr__" and has_cp)
-        if not reachable:
-            continue
-        for role, suffix, fs in _parts(spec):
-            if not fs["uses"]:
-                continue
-            tag = k + suffix
-            del LOG[:]
-            obj = b.old_dict[k]
-            try:
-                target = new() if inst is not None else None
-                if k == "__getattr__":
-                    try:
-                        getattr(target, "zz_call_probe")
-                    except AttributeError:
-                        pass
-                elif k == "__attrs_init_subclass__":
-                    obj.__func__(new)
-                    if ISUB:
-                        ISUB.pop()
-                elif role == "fn":
-                    obj(target)
-                elif role in ("cm",):
-                    obj.__func__(new)
-                elif role == "sm":
-                    obj.__func__()
-                elif role == "fget":
-                    obj.fget(target)
-                elif role == "fset":
-                    obj.fset(target, 1)
-                elif role == "fdel":
-                    obj.fdel(target)
-                elif role == "cprop":
-                    getattr(target, k)
-                elif role == "opaque":
-                    r = getattr(target, k)
-                    if callable(r):
-                        r()
-            except BaseException:  # noqa: BLE001
-                pass
-            calls.append([[k, suffix[1:] or "whole"], _evidence(tag, b)])
-    obs["calls"] = calls
+    # calls (now), and what the same functions saw when the inherited hook invoked them (then)
+    obs["calls"] = [[lab, _classify(ev, new, old)] for lab, ev in _raw_calls(new, b)]
+    hook_calls, view = [], []
+    for raw, snap in zip(b.hook_raw, b.hook_snap):
+        hook_calls += [[lab, _classify(ev, new, old)] for lab, ev in raw]
+        if snap["cls"] is not new:
+            view.append("not-the-returned-class")
+        if snap["slots"] is MISSING or snap["slots"] != new.__dict__.get("__slots__"):
+            view.append("slots")
+        if snap["keys"] != set(new.__dict__):
+            view.append("dict-keys")
+        try:
+            final_fields = [a.name for a in attr.fields(new)]
+        except BaseException:  # noqa: BLE001
+            final_fields = "?"
+        if snap["fields"] != final_fields:
+            view.append("fields")
+    obs["hookCalls"] = hook_calls
+    obs["hookView"] = sorted(set(view))
     # cached properties
     del CP_LOG[:]
     del CP_INSTS[:]
@@ -709,6 +810,29 @@ def observe(hs):
         rd.append("same-object")
     if hs.get("meta") == "abc" and not isinstance(new, abc.ABCMeta):
         rd.append("abc")
+    for k, v in b.old_dict.items():
+        if isinstance(v, _Descr) and new.__dict__.get(k, MISSING) is v and v.owner is not new:
+            rd.append("__set_name__")
     obs["runtimeDiff"] = rd
+    # the same class built as a dict class (the original class object goes through the decorator again, which
+    # patches it in place -- nothing else is observed on it afterwards): assignments must behave alike
+    obs["assignAgree"] = True
+    names = list(inherited_names(hs)) + list(hs["fields"])
+    inh = set(inherited_names(hs))
+    # not compared: frozen leaves (every assignment raises; the frozen *dict* twin may hit K3), a body-level
+    # __slots__ (the dict twin has no __dict__), body keys shadowing inherited fields (dropped by the slotted build)
+    comparable = (hs.get("body_slots") is None and not hs.get("frozen")
+                  and not any(k in inh for k, _s in hs["items"]))
+    if comparable and inst is not None and names:
+        on = assign_probe(new, names)
+        try:
+            twin = _decorate(hs, old, slots=False)
+            twin()
+        except BaseException:  # noqa: BLE001
+            twin = None
+        finally:
+            del ISUB[:]
+        if twin is not None:
+            obs["assignAgree"] = on == assign_probe(twin, names)
     del LOG[:]
     return obs
